@@ -111,19 +111,21 @@ static int run_random(uint64_t seed, long n) {
         }
         // integer tracks of the narrow types (8 and 16 bits, signed and unsigned): a fifth of the integer tracks, values over the whole type
         if (!(frames == 4096 && t == 0) && r.coin(1, 5)) {
-          static const DataType nts[] = {DT_INT8, DT_UINT8, DT_INT16, DT_UINT16};
-          tr.dt = nts[r.range(0, 3)];
-          tr.es = (tr.dt == DT_INT8 || tr.dt == DT_UINT8) ? 1 : 2;
+          // (64-bit integers are stored as they are -- no integer coding path takes them)
+          static const DataType nts[] = {DT_INT8, DT_UINT8, DT_INT16, DT_UINT16, DT_INT64, DT_UINT64};
+          tr.dt = nts[r.range(0, 5)];
+          tr.es = (tr.dt == DT_INT8 || tr.dt == DT_UINT8) ? 1 : (tr.dt == DT_INT64 || tr.dt == DT_UINT64) ? 8 : 2;
           const bool narrow_span = r.coin(1, 3);
           auto fill = [&](auto proto) {
             typedef decltype(proto) T;
             std::vector<T> data((size_t)frames * tr.comps);
             const int64_t lo = std::numeric_limits<T>::min(), hi = std::numeric_limits<T>::max();
-            for (auto &x : data) x = (T)(narrow_span ? (hi - (int64_t)r.below(9)) : (lo + (int64_t)r.below((uint64_t)(hi - lo + 1))));
+            for (auto &x : data) x = sizeof(T) == 8 ? (T)(narrow_span ? (uint64_t)hi - r.below(9) : r.next()) : (T)(narrow_span ? (hi - (int64_t)r.below(9)) : (lo + (int64_t)r.below((uint64_t)(hi - lo + 1))));
             tr.bytes.assign((const char *)data.data(), (const char *)data.data() + data.size() * sizeof(T));
             tr.id = anim.AddKeyframes(tr.dt, tr.comps, data);
           };
-          if (tr.dt == DT_INT8) fill((int8_t)0); else if (tr.dt == DT_UINT8) fill((uint8_t)0); else if (tr.dt == DT_INT16) fill((int16_t)0); else fill((uint16_t)0);
+          if (tr.dt == DT_INT8) fill((int8_t)0); else if (tr.dt == DT_UINT8) fill((uint8_t)0); else if (tr.dt == DT_INT16) fill((int16_t)0); else if (tr.dt == DT_UINT16) fill((uint16_t)0);
+          else if (tr.dt == DT_INT64) fill((int64_t)0); else fill((uint64_t)0);
           tr.iv.clear();
           tracks.push_back(tr);
           continue;
@@ -175,7 +177,21 @@ static int run_random(uint64_t seed, long n) {
       if (tr.q > 0 && tr.id >= 0 && !tr.deleted) eo.SetAttributeInt(anim.GetAttributeIdByUniqueId(tr.id), "quantization_bits", tr.q);
     }
     EncoderBuffer eb;
-    KeyframeAnimationEncoder enc;
+    // every second case runs on ONE encoder object that has encoded all earlier ones; every tenth of those first hands it an animation it has to
+    // refuse (a NaN in a track that is to be quantised): neither leaves anything behind
+    static KeyframeAnimationEncoder reused_enc;
+    KeyframeAnimationEncoder fresh_enc;
+    KeyframeAnimationEncoder &enc = (i % 2) ? reused_enc : fresh_enc;
+    if (i % 20 == 1) {
+      KeyframeAnimation bad;
+      std::vector<float> bts = {0.f, 1.f, 2.f}, bv = {0.5f, std::numeric_limits<float>::quiet_NaN(), 1.5f};
+      bad.SetTimestamps(bts);
+      const int bid = bad.AddKeyframes(DT_FLOAT32, 1, bv);
+      EncoderOptions beo = EncoderOptions::CreateDefaultOptions();
+      beo.SetAttributeInt(bad.GetAttributeIdByUniqueId(bid), "quantization_bits", 10);
+      EncoderBuffer beb;
+      (void)enc.EncodeKeyframeAnimation(bad, beo, &beb);
+    }
     const Status st = enc.EncodeKeyframeAnimation(anim, eo, &eb);
     KeyframeAnimation outa;
     bool dok = false;
